@@ -286,6 +286,33 @@ func (u *Unit) rangeSource(v *types.Var) string {
 	return out
 }
 
+// renderCall renders one call (receiver → arguments) in this unit.
+func (u *Unit) renderCall(c *ast.CallExpr) string {
+	k := u.calleeKey(c)
+	if k == "" {
+		return ""
+	}
+	short := k
+	if i := strings.LastIndexByte(k, '.'); i >= 0 {
+		short = k[i+1:]
+	}
+	var as []string
+	if sel, ok := ast.Unparen(c.Fun).(*ast.SelectorExpr); ok {
+		if f, ok := typeutil.Callee(u.Info, c).(*types.Func); ok && f.Type().(*types.Signature).Recv() != nil {
+			as = append(as, u.argShape(sel.X, c, 0)+"→")
+		}
+	}
+	for _, arg := range c.Args {
+		as = append(as, u.argShape(arg, c, 0))
+	}
+	return short + "(" + strings.Join(as, ", ") + ")"
+}
+
+type extraArg struct {
+	text string
+	skip int // number of leading parameter substitutions that do not apply (the text is already in the caller's terms)
+}
+
 // ArgSig renders the operands of the calls behind an atom.
 func (a *Atom) ArgSig() string {
 	u := a.Unit
@@ -314,12 +341,21 @@ func (a *Atom) ArgSig() string {
 		}
 		parts = append(parts, short+"("+strings.Join(as, ", ")+")")
 	}
-	if len(parts) == 0 && a.Leaf != nil {
+	if len(parts) == 0 && len(a.ExtraArgs) == 0 && a.Leaf != nil {
 		return ""
 	}
 	_ = at
+	for i := range parts {
+		parts[i] = applySubsts(parts[i], a.Substs)
+	}
+	// calls that computed, at a call site further out, a value this atom tests (rendered there)
+	for _, x := range a.ExtraArgs {
+		if x.skip <= len(a.Substs) {
+			parts = append(parts, applySubsts(x.text, a.Substs[x.skip:]))
+		}
+	}
 	sort.Strings(parts)
-	out := applySubsts(strings.Join(parts, " ; "), a.Substs)
+	out := strings.Join(parts, " ; ")
 	// the conditions under which a (non-MUST) check runs are part of what it checks: nesting it under a
 	// further condition (a cache hit, a mode flag) changes the shape
 	if a.Leaf != nil && !a.Must {
